@@ -301,6 +301,34 @@ def _check_session(F, S, spec, k0, ops, thr):
     return out, nontrivial, info
 
 
+def _shrink_session(case, clause, run_case, budget_s=3.0):
+    """Smallest request list (shortest failing prefix, then greedy removal of single requests) on which `clause`
+    still fails; run_case(case) -> {clause: message}.  Returns (case, message) or (case, None) if not reproducible."""
+    t0 = time.time()
+    ops = list(case["ops"])
+
+    def bad(o):
+        return clause in run_case(dict(case, ops=o))
+
+    lo, hi = 1, len(ops)
+    while lo < hi and time.time() - t0 < budget_s:
+        mid = (lo + hi) // 2
+        if bad(ops[:mid]):
+            hi = mid
+        else:
+            lo = mid + 1
+    ops = ops[:hi]
+    j = len(ops) - 2
+    while j >= 0 and time.time() - t0 < budget_s:
+        cand = ops[:j] + ops[j + 1 :]
+        if bad(cand):
+            ops = cand
+        j -= 1
+    small = dict(case, ops=ops)
+    msg = run_case(small).get(clause)
+    return (small, msg) if msg is not None else (case, None)
+
+
 _ORDERS = ["tfh", "thf", "fth", "fht", "htf", "hft"]
 
 
@@ -501,7 +529,15 @@ def run(tier, seed):
             key = (clause, spec["bank"])
             dup[key] = dup.get(key, 0) + 1
             if dup[key] <= 2:
-                col.fail(clause, case, msg)
+                small, m = _shrink_session(case, clause, lambda c: dict(_check_session(F, S, c["bank"], c["filt"], c["ops"], thr)[0]))
+                if m is not None and len(small["ops"]) == 1:
+                    # not a matter of history: report the plain (filter, width) case if it fails on its own
+                    o = small["ops"][0]
+                    plain = {"bank": spec, "filt": int(o[2]) if len(o) > 2 else k, "width": int(o[0])}
+                    pf = dict(_check(_build(F, S, spec), spec, plain["filt"], plain["width"], thr)[0])
+                    if clause in pf:
+                        small, m = plain, pf[clause]
+                col.fail(clause, small, m if m is not None else msg)
         if "rebuild_over_thr" in info:
             worst[spec["bank"]] = max(worst.get(spec["bank"], 0.0), info["rebuild_over_thr"])
     # phase 1: small widths (2..64) on as many banks as the budget allows; phase 2: big widths
@@ -553,7 +589,8 @@ def run(tier, seed):
         bound=(
             f"BOUNDED ({tier}): grid 4 banks x 4 scales x rates {'{8k,16k}' if quick else '{8k,16k,44.1k}'} x num_filts {'{1,2,5,11}' if quick else '{1,2,5,11,40}'} x 3 ranges "
             f"(incl. low_hz = 0 -> wrap below 0) x flags ({len(grid)} configurations, visited in seeded class-interleaved order within the time budget, every 5th "
-            f"replaced by a seeded random configuration), all filters (n <= 11; ends and middle otherwise), widths 2..64 and then {BIG_WIDTHS}"
+            f"replaced by a seeded random configuration), all filters (n <= 11; ends and middle otherwise), widths 2..64 and then {BIG_WIDTHS}; "
+            f"before that {sess_budget} s of sessions on the same walk (one bank object, widths 2m, m+1, 2m-1, m for m in {{32, 64, 128, 256}} and two seeded m < 200, seeded request orders, two filters)"
         ),
         assumptions=ASSUMPTIONS,
     )
